@@ -78,7 +78,7 @@ def simple_model(decl="", tdecl="", params=None, inv=None, guard=None, sync=None
     return nta(decl, [t] + list(extra_templates), system)
 
 
-def run_docs(w, docs, want=(), kind="xml", newxta=True, batch=100, timeout=60.0, extra=None):
+def run_docs(w, docs, want=(), kind="xml", newxta=True, batch=100, timeout=30.0, extra=None, one_timeout=10.0):
     """docs: list of document texts.  Returns the list of responses (one per doc);
     a doc that kills the worker yields {'died': True, ...}.  On a death inside a
     batch every doc of that batch is re-run alone so the culprit is exact."""
@@ -99,7 +99,7 @@ def run_docs(w, docs, want=(), kind="xml", newxta=True, batch=100, timeout=60.0,
             for d in chunk:
                 req = dict(base)
                 req["bufs"] = [d]
-                r = w.call_safe(req, timeout)
+                r = w.call_safe(req, one_timeout)
                 if r.get("died"):
                     out.append(r)
                 else:
